@@ -137,13 +137,18 @@ def run(tier, seed):
             from mudslide.collect import collect
             y, m, rec, evs = handles[0]
             main = os.path.join(d, y.main_log)
-            collect(main, "tkpea")
-            rows = [l.split() for l in open(main + ".dat") if not l.startswith("#")]
-            want = [["%12.8f" % s["time"], "%12.8f" % s["kinetic"], "%12.8f" % s["potential"], "%12.8f" % s["energy"], "%12d" % s["active"]] for s in rec]
-            want = [[w.strip() for w in r] for r in want]
-            if rows != want:
-                bad.append(dict(failed="collect command tabulates exactly the logged values", case=dict(info), got=rows[:3], want=want[:3]))
-            res.count("collect-cmd")
+            names = dict(t="time", k="kinetic", p="potential", e="energy", a="active")
+            # the default key string, then subsets, reordered and repeated keys (every column must sit under its own header)
+            keysets = ["tkpea", "".join(rng.sample("tkpea", rng.randint(1, 5))), "".join(rng.choice("tkpea") for _ in range(rng.randint(2, 4)))]
+            for keys in keysets:
+                collect(main, keys)
+                lines = open(main + ".dat").read().splitlines()
+                header = [l for l in lines if l.startswith("#")][0].lstrip("#").split()
+                rows = [l.split() for l in lines if not l.startswith("#")]
+                want = [[(("%12d" % s[names[k_]]) if k_ == "a" else ("%12.8f" % s[names[k_]])).strip() for k_ in keys] for s in rec]
+                res.count("collect-cmd"); res.count("collect-cmd/" + ("default-keys" if keys == "tkpea" else "other-keys"))
+                if rows != want or header != [names[k_] for k_ in keys]:
+                    bad.append(dict(failed="collect command tabulates exactly the logged values (keys %r: header %r)" % (keys, header), case=dict(info), got=rows[:3], want=want[:3])); break
         nsn = sum(len(h[2]) for h in handles)
         res.count("ops", len(ops))
         for o in ops: res.count("op/" + o[0])
@@ -169,5 +174,5 @@ def run(tier, seed):
     return finish(res, thm,
                   rule="random sequences of 4..60 operations (new trace under an already used base name, collect, event, reload from disk, clone) over several live traces in one directory, page sizes 1..9, "
                        "lock-step InMemoryTrace twin; after every operation the parsed directory is compared with the Coq model's file map; reads (len, +/- and out-of-range indices, iteration) compared with the recorded list "
-                       "with exact numeric equality incl. signed zero, subnormals, 1e300, 17-digit floats; collect command output; non-trivial = distinct op sequence",
+                       "with exact numeric equality incl. signed zero, subnormals, 1e300, 17-digit floats; collect command output for the default, reordered, partial and repeated key strings; non-trivial = distinct op sequence",
                   assumptions=["PyYAML text round trip of floats is an oracle (checked with adversarial values)", "reload of a trace with zero snapshots is outside the quantifier (length >= 1)"])
